@@ -354,15 +354,9 @@ def find_urls(data: bytes) -> list[Node]:
                 group = group[:close]
         if not is_url(group):
             continue
-        out.append(
-            Node(
-                URL_TYPE,
-                *normalize_percent_encoding(group),
-                start,
-                end,
-                children=parse_url(group),
-            )
-        )
+        normalized, obfuscation = normalize_percent_encoding(group)
+        # The parts index into the node's value, so they are parsed from the normalised text
+        out.append(Node(URL_TYPE, normalized, obfuscation, start, end, children=parse_url(normalized)))
     return out
 
 
